@@ -5,6 +5,7 @@ import (
 	"fmt"
 	"reflect"
 	"runtime/debug"
+	"syscall"
 
 	"free5gclib/nas/nasConvert"
 	"free5gclib/nas/nasMessage"
@@ -14,6 +15,8 @@ import (
 	stgutg "stgutgp"
 	"tglib"
 	tp "tglib/ngapTestpacket"
+
+	"github.com/ishidawataru/sctp"
 
 	"vh/fw"
 	"vh/ref/ident"
@@ -185,16 +188,42 @@ func c11Ngap(imsi, mcc, mnc string, want []byte) string {
 	if m := check("NGSetupRequest", b); m != "" {
 		return m
 	}
+	// the emulator's own NG Setup procedure over a socketpair (the peer answers with a decodable PDU): what it announces,
+	// and what the builders repeat afterwards, is the same PLMN
+	if fds, err := syscall.Socketpair(syscall.AF_UNIX, syscall.SOCK_SEQPACKET, 0); err == nil {
+		reqCh := make(chan []byte, 1)
+		go func() {
+			buf := make([]byte, 4096)
+			n, _ := syscall.Read(fds[0], buf)
+			if n < 0 {
+				n = 0
+			}
+			syscall.Write(fds[0], buf[:n])
+			reqCh <- append([]byte(nil), buf[:n]...)
+		}()
+		conn := sctp.NewSCTPConn(fds[1], nil)
+		stgutg.ManageNGSetup(conn, "\x00\x01\x02", "imsi-"+imsi, mnc, 24, "gnb")
+		req := <-reqCh
+		syscall.Close(fds[0])
+		conn.Close()
+		if m := check("NGSetupRequest sent by ManageNGSetup", req); m != "" {
+			return m
+		}
+	}
 	// other subscribers are handled after NG Setup (RegisterUE encodes each UE's SUCI): the announced PLMN must stay
 	visitor := fmt.Sprintf("%03d%02d%010d", (atoiDigits(mcc)+317)%1000, (atoiDigits(mnc)+41)%100, 123456789)
-	stgutg.EncodeSuci([]byte(visitor), 2)
-	stgutg.EncodeSuci([]byte(imsi[:len(imsi)-1]+"9"), len(mnc))
-	b, err = tglib.GetInitialUEMessage(7, []byte{0x7e, 0, 0x41}, "")
-	if err != nil {
-		return "GetInitialUEMessage: " + err.Error()
-	}
-	if m := check("InitialUEMessage after that NG Setup", b); m != "" {
-		return m
+	for i, other := range []struct {
+		imsi string
+		n    int
+	}{{visitor, 2}, {visitor[:3] + "9" + visitor[3:], 3}, {imsi[:len(imsi)-1] + "9", len(mnc)}} {
+		stgutg.EncodeSuci([]byte(other.imsi), other.n)
+		b, err = tglib.GetInitialUEMessage(7, []byte{0x7e, 0, 0x41}, "")
+		if err != nil {
+			return "GetInitialUEMessage: " + err.Error()
+		}
+		if m := check(fmt.Sprintf("InitialUEMessage after that NG Setup and the SUCI of subscriber %s (step %d)", other.imsi, i), b); m != "" {
+			return m
+		}
 	}
 	b, err = tglib.GetUplinkNASTransport(1, 7, []byte{0x7e, 0, 0x43})
 	if err != nil {
